@@ -172,7 +172,7 @@ def build_harness(workdir):
     return (exe if rc == 0 else None), out
 
 
-RESULT_RE = re.compile(r"^\s*=\s*\((\d+),\s*(true|false),\s*(true|false)(?:,\s*(\[[^\]]*\]|nil))?\)\s*$")
+RESULT_RE = re.compile(r"^\s*=\s*\(\"?(\d+)\"?(?:%string)?,\s*(true|false),\s*(true|false)(?:,\s*(\[[^\]]*\]|nil))?\)\s*$")
 
 
 def eval_shard(args):
